@@ -24,7 +24,7 @@ EVIL = "https://evil.example.org/idp"
 GOOD = "https://good.example.org/idp"
 NODE = {"many": "%s:EntitiesDescriptor" % MDNS, "single": "%s:EntityDescriptor" % MDNS}
 
-TOPS = ["none", "garbage", "copied", "own-md", "own-other", "own-md-tampered", "own-md-whole", "own-md-whole-noid"]
+TOPS = ["none", "garbage", "garbage-whole", "copied", "own-md", "own-other", "own-md-tampered", "own-md-whole", "own-md-whole-noid"]
 PARKS = {"many": ["none", "ext+sig", "ext-sig", "nested+sig", "nested-sig"], "single": ["none", "ext+sig", "ext-sig"]}
 ROOTIDS = [None, "evil-1", "dup"]
 CERTS = ["md", "other", None]
@@ -110,7 +110,9 @@ def build(kind, gen_xml, top, park, pos, rootid, tamper_attr="cacheDuration"):
     gsig = [c for c in gen_root if c.tag == SIG][0]
     if top != "none":
         s = copy.deepcopy(gsig)
-        if top == "garbage":
+        if top == "garbage-whole":     # whatever the genuine Reference is: a whole-document Reference, value garbage
+            s.find("{%s}SignedInfo/{%s}Reference" % (DS, DS)).set("URI", "")
+        if top.startswith("garbage"):
             sv = s.find("{%s}SignatureValue" % DS)
             sv.text = "AAAA" + sv.text[4:] if not sv.text.startswith("AAAA") else "BBBB" + sv.text[4:]
         front.append(s)
@@ -131,7 +133,7 @@ def own_ok(top, cert):
 
 def shape(top, park, pos):
     """which wrapping arrangement (None = not one): the class names used as finding keys"""
-    if top in ("garbage", "copied") and park.endswith("+sig") and pos == "before":
+    if top in ("garbage", "garbage-whole", "copied") and park.endswith("+sig") and pos == "before":
         return "first-signature-is-the-parked-original"
     if top == "copied" and park.endswith("-sig"):
         return "root-signature-references-the-parked-original"
